@@ -7,6 +7,7 @@
 mod ast;
 mod ops_api;
 mod ops_engine;
+mod ops_features;
 #[cfg(feature = "pattern")]
 mod ops_pattern;
 mod report;
@@ -57,6 +58,13 @@ fn main() {
         }
         #[cfg(feature = "pattern")]
         "c20" => ops_pattern::c20(&mut rep, n, seed),
+        "gencases" => ops_features::gen_cases(&mut rep, n, seed, &out, true),
+        "replay" => {
+            ops_features::replay(&aux, &out);
+            return;
+        }
+        #[cfg(feature = "utf16")]
+        "c14" => ops_features::c14(&mut rep, n, seed),
         "c19" => ops_engine::c19(&mut rep, n, seed, thorough),
         "c09" => ops_api::c09(&mut rep, n, seed),
         "c11" => ops_api::c11(&mut rep, &aux, thorough, seed),
